@@ -6,10 +6,10 @@ Open Scope Z_scope.
 (* The domain is finite except for the key length, which only matters through two comparisons.
    The proof is by case analysis on every component; the key length is split on the two
    comparisons of [valid_keylength]. *)
-Theorem oracle_holds : forall c, oracle c (run c) = true.
+Theorem oracle1_holds : forall c, oracle1 c (run1 c) = true.
 Proof.
   intros [rd td ir t tu sk ct p kb tv h u].
-  unfold oracle, run, validate_or_reject, validate, spec_accept, valid_keylength. cbn [rej_dir tru_dir in_rej tru trust_unknown skip_verify check_time pol key_bits tm host uri].
+  unfold oracle1, run1, validate_or_reject, validate, spec_accept, valid_keylength. cbn [rej_dir tru_dir in_rej tru trust_unknown skip_verify check_time pol key_bits tm host uri].
   destruct (fst (min_max p) <=? kb) eqn:E1; destruct (kb <=? snd (min_max p)) eqn:E2;
   destruct rd, td, ir, t, tu, sk, ct, tv, h, u; reflexivity.
 Qed.
@@ -40,9 +40,16 @@ Proof.
   destruct rd, td, ir, t, tu, sk, ct, tv, h, u; cbn; intro H; try discriminate; split; reflexivity.
 Qed.
 
+Theorem oracle_holds : forall c : case, oracle c (run c) = true.
+Proof.
+  induction c as [|s c IH]; [reflexivity|].
+  pose proof (oracle1_holds s) as H1. unfold run. cbn [flat_map]. unfold run1 at 1. unfold run1 in H1.
+  cbn [app oracle]. rewrite H1. exact IH.
+Qed.
+
 Example accept_example :
   spec_accept (mk_case true true false TSame false false true Basic256Sha256 2048 TimeValid NMatch NMatch) = true.
 Proof. reflexivity. Qed.
 Example reject_example :
-  run (mk_case true true false TAbsent false false true Basic256Sha256 2048 TimeValid NMatch NMatch) = [BadCertificateUntrusted; 1; 0].
+  run [mk_case true true false TAbsent false false true Basic256Sha256 2048 TimeValid NMatch NMatch] = [BadCertificateUntrusted; 1; 0].
 Proof. reflexivity. Qed.
